@@ -76,11 +76,11 @@ func serfLeave(c *snapCase, x *vkit.Ctx) {
 		if name == "leaver" || strings.ContainsAny(name, "\n") {
 			continue
 		}
-		ip, port := addrFor(op.M%len(c.Names), op.A)
+		ip, port, wantAddr := addrFor(op.M%len(c.Names), op.A)
 		mn := &memberlist.Node{Name: name, Addr: ip, Port: port, PMin: 1, PMax: 5, PCur: 2, DMin: 2, DMax: 5, DCur: 5}
 		if op.K == opJoin {
 			n.EventsD.NotifyJoin(mn)
-			alive[name] = (&net.TCPAddr{IP: ip, Port: int(port)}).String()
+			alive[name] = wantAddr
 			expectEvents++
 		} else {
 			if _, isAlive := alive[name]; isAlive {
